@@ -78,6 +78,25 @@ def scripted():
     ]
 
 
+def session_links_proof(ctx):
+    """Unbounded complement (informational, never gating): TLAPS proof of spec/SessionLinks.tla -- for any set of
+    peers, the service believes a peer connected exactly when a connection exists and the session records its link."""
+    import re
+    import shutil
+    try:
+        d = os.path.join(ctx.work, "tlaps")
+        os.makedirs(d, exist_ok=True)
+        shutil.copy(os.path.join(vlib.SPEC, "SessionLinks.tla"), d)
+        p = subprocess.run(["timeout", "300", "tlapm", "--threads", "4", "SessionLinks.tla"], cwd=d,
+                           stdout=subprocess.PIPE, stderr=subprocess.STDOUT, text=True)
+        m = re.search(r"All (\d+) obligations proved", p.stdout)
+        return {"ran": True, "all_proved": bool(m), "obligations": int(m.group(1)) if m else None,
+                "theorems": ["Safety (Spec => [](TypeOK /\\ SessionHasConnection /\\ LinkRecorded /\\ NoDialWhileOut))"],
+                "prover": "tlapm 1.6.0-pre (SMT, Zenon, Isabelle, PTL)"}
+    except Exception as e:  # tool trouble is not a verdict
+        return {"ran": False, "error": str(e)[:200]}
+
+
 def execute(ctx, scripts, tag=""):
     """Runs the scripts on the real Service (engine c16_fetchsched, 12 processes) and validates the log against
     the observer TraceFetchSched. Returns (event lines, TLC result of the observer)."""
@@ -221,7 +240,8 @@ def run(ctx):
                         "a reconnect is a disconnect followed by a connect",
                         "the repository's Peer test double drives the same Service code as the runtime"]
     return ctx.finish(rule=RULE, extra={"fetches_emitted": fetches, "model_behaviours": len(behaviours), "random_runs": nrand, "wire_level": wstats, "model_conformance": conformance,
-                                        "liveness_beyond_listed_property": liveness})
+                                        "liveness_beyond_listed_property": liveness,
+                                        "tlaps_unbounded_proof_session_links": session_links_proof(ctx)})
 
 
 def model_conformance(ctx, events, thorough):
